@@ -88,6 +88,7 @@ func applyWorldOverrides(wf *gql.Features, on, off featSet) {
 	set("value-union", &wf.ValueUnion)
 	set("weird-ids", &wf.WeirdIDs)
 	set("shared-root-name", &wf.SharedRootName)
+	set("empty-abstract", &wf.EmptyAbstract)
 }
 
 func applyOpOverrides(of *gql.OpFeatures, on, off featSet) {
